@@ -26,6 +26,7 @@
 // Output: exactly one line per case line.
 //   UNPACK <d> <hex> | REFPARSE <d> <hex>  ->  `U FAIL` | `U <msg>`   (ParsePartialFromString + IsInitialized)
 //   PACK <msg>                             ->  `P <len> <hex>`        (deterministic SerializePartial)
+//   RAW <hex>                              ->  `R -` | `R <num>:<wt>:<value>...`  (UnknownFieldSet: no schema)
 //   anything else                          ->  `ERR unknown op`
 // A malformed case line gives `ERR <reason>`.  A schema the reference cannot express gives one line
 // `ENVERR <reason>` and exit status 0.
@@ -1064,6 +1065,37 @@ static void case_pack(std::string &o, const std::vector<std::string> &t) {
   put_hex(o, out);
 }
 
+// RAW <hex>: the records libprotobuf itself finds in the bytes, read with no schema at all (UnknownFieldSet):
+//   R <num>:<wt>:<value>...   value: 16 hex digits (wt 0, 1), 8 hex digits (wt 5), the bytes in hex or - (wt 2)
+//   R -   when libprotobuf rejects the bytes;  a group is printed as <num>:3:G (the model does not read groups)
+static void case_raw(std::string &o, const std::vector<std::string> &t) {
+  if (t.size() < 2) throw CaseError("RAW needs bytes");
+  std::string data = hex_decode<CaseError>(t[1]);
+  gp::UnknownFieldSet u;
+  if (!u.ParseFromArray(data.data(), static_cast<int>(data.size()))) {
+    o = "R -";
+    return;
+  }
+  o = "R";
+  for (int i = 0; i < u.field_count(); i++) {
+    const gp::UnknownField &f = u.field(i);
+    o.push_back(' ');
+    put_u64(o, static_cast<uint64_t>(f.number()));
+    switch (f.type()) {
+      case gp::UnknownField::TYPE_VARINT: o += ":0:"; put_hex64(o, f.varint()); break;
+      case gp::UnknownField::TYPE_FIXED64: o += ":1:"; put_hex64(o, f.fixed64()); break;
+      case gp::UnknownField::TYPE_LENGTH_DELIMITED: o += ":2:"; put_hex(o, f.length_delimited()); break;
+      case gp::UnknownField::TYPE_FIXED32: {
+        o += ":5:";
+        uint32_t v = f.fixed32();
+        for (int k = 7; k >= 0; k--) o.push_back(kHex[(v >> (4 * k)) & 15]);
+        break;
+      }
+      case gp::UnknownField::TYPE_GROUP: o += ":3:G"; break;
+    }
+  }
+}
+
 int main(int argc, char **argv) {
   const char *path = nullptr;
   for (int i = 1; i < argc; i++) {
@@ -1107,6 +1139,7 @@ int main(int argc, char **argv) {
     try {
       if (t[0] == "UNPACK" || t[0] == "REFPARSE") case_unpack(o, t);
       else if (t[0] == "PACK") case_pack(o, t);
+      else if (t[0] == "RAW") case_raw(o, t);
       else o = "ERR unknown op";
     } catch (const CaseError &e) {
       o = std::string("ERR ") + e.what();
